@@ -41,6 +41,12 @@ func runCLICheck(spec CheckSpec, tier string, seed int64, verifDir string, start
 			stats[k] = v
 		}
 		samples = append(samples, smp...)
+		// boot part: a real single-node chain from the binary (not simulation)
+		nv, nst := realNodeProbe(c)
+		vs = append(vs, nv...)
+		for k, v := range nst {
+			stats[k] = v
+		}
 	}
 	kf, err := LoadFindings(filepath.Join(verifDir, "known_findings.json"))
 	if err != nil {
